@@ -2,8 +2,8 @@
    For an abstract Rust file and a list of (configuration, implementation output) the harness gets
    back, per run:
      [file in the domain ; impl = spec ; model ideal = spec ;
-      impl = model q for q = claimed vector, claimed vector with flag i off (i = 0..7), ideal ;
-      model (ideal with flag i on) = spec (i = 0..7)]
+      impl = model q for q = claimed vector, claimed vector with flag i off (i = 0..9), ideal ;
+      model (ideal with flag i on) = spec (i = 0..9)]
    (`judge` stops after the claimed vector when the run satisfies the specification and the claimed vector
    matches; `judge_full` always computes everything)
    The last group tells which listed defects matter on an input where several of them hide one another. *)
@@ -11,37 +11,64 @@ From TL Require Import Lib.Base Lib.GenTypes Model.RustSafetyTypes Model.RustSaf
 
 Definition set_flag (i : nat) (b : bool) (q : rquirks) : rquirks :=
   match i with
-  | 0 => Build_rquirks b (q_test_attr_substring q) (q_cfg_test_literal q) (q_attr_stop_at_comment q) (q_chain_start_line q) (q_for_header_in_loop q) (q_clone_first_pattern q) (q_net_bare_type q)
-  | 1 => Build_rquirks (q_macro_opaque q) b (q_cfg_test_literal q) (q_attr_stop_at_comment q) (q_chain_start_line q) (q_for_header_in_loop q) (q_clone_first_pattern q) (q_net_bare_type q)
-  | 2 => Build_rquirks (q_macro_opaque q) (q_test_attr_substring q) b (q_attr_stop_at_comment q) (q_chain_start_line q) (q_for_header_in_loop q) (q_clone_first_pattern q) (q_net_bare_type q)
-  | 3 => Build_rquirks (q_macro_opaque q) (q_test_attr_substring q) (q_cfg_test_literal q) b (q_chain_start_line q) (q_for_header_in_loop q) (q_clone_first_pattern q) (q_net_bare_type q)
-  | 4 => Build_rquirks (q_macro_opaque q) (q_test_attr_substring q) (q_cfg_test_literal q) (q_attr_stop_at_comment q) b (q_for_header_in_loop q) (q_clone_first_pattern q) (q_net_bare_type q)
-  | 5 => Build_rquirks (q_macro_opaque q) (q_test_attr_substring q) (q_cfg_test_literal q) (q_attr_stop_at_comment q) (q_chain_start_line q) b (q_clone_first_pattern q) (q_net_bare_type q)
-  | 6 => Build_rquirks (q_macro_opaque q) (q_test_attr_substring q) (q_cfg_test_literal q) (q_attr_stop_at_comment q) (q_chain_start_line q) (q_for_header_in_loop q) b (q_net_bare_type q)
-  | _ => Build_rquirks (q_macro_opaque q) (q_test_attr_substring q) (q_cfg_test_literal q) (q_attr_stop_at_comment q) (q_chain_start_line q) (q_for_header_in_loop q) (q_clone_first_pattern q) b
+  | 0 => Build_rquirks b (q_test_attr_substring q) (q_cfg_test_literal q) (q_attr_stop_at_comment q) (q_chain_start_line q) (q_for_header_in_loop q) (q_clone_first_pattern q) (q_blocking_msg_line q) (q_wrapper_method_form q) (q_net_bare_type q)
+  | 1 => Build_rquirks (q_macro_opaque q) b (q_cfg_test_literal q) (q_attr_stop_at_comment q) (q_chain_start_line q) (q_for_header_in_loop q) (q_clone_first_pattern q) (q_blocking_msg_line q) (q_wrapper_method_form q) (q_net_bare_type q)
+  | 2 => Build_rquirks (q_macro_opaque q) (q_test_attr_substring q) b (q_attr_stop_at_comment q) (q_chain_start_line q) (q_for_header_in_loop q) (q_clone_first_pattern q) (q_blocking_msg_line q) (q_wrapper_method_form q) (q_net_bare_type q)
+  | 3 => Build_rquirks (q_macro_opaque q) (q_test_attr_substring q) (q_cfg_test_literal q) b (q_chain_start_line q) (q_for_header_in_loop q) (q_clone_first_pattern q) (q_blocking_msg_line q) (q_wrapper_method_form q) (q_net_bare_type q)
+  | 4 => Build_rquirks (q_macro_opaque q) (q_test_attr_substring q) (q_cfg_test_literal q) (q_attr_stop_at_comment q) b (q_for_header_in_loop q) (q_clone_first_pattern q) (q_blocking_msg_line q) (q_wrapper_method_form q) (q_net_bare_type q)
+  | 5 => Build_rquirks (q_macro_opaque q) (q_test_attr_substring q) (q_cfg_test_literal q) (q_attr_stop_at_comment q) (q_chain_start_line q) b (q_clone_first_pattern q) (q_blocking_msg_line q) (q_wrapper_method_form q) (q_net_bare_type q)
+  | 6 => Build_rquirks (q_macro_opaque q) (q_test_attr_substring q) (q_cfg_test_literal q) (q_attr_stop_at_comment q) (q_chain_start_line q) (q_for_header_in_loop q) b (q_blocking_msg_line q) (q_wrapper_method_form q) (q_net_bare_type q)
+  | 7 => Build_rquirks (q_macro_opaque q) (q_test_attr_substring q) (q_cfg_test_literal q) (q_attr_stop_at_comment q) (q_chain_start_line q) (q_for_header_in_loop q) (q_clone_first_pattern q) (q_blocking_msg_line q) (q_wrapper_method_form q) b
+  | 8 => Build_rquirks (q_macro_opaque q) (q_test_attr_substring q) (q_cfg_test_literal q) (q_attr_stop_at_comment q) (q_chain_start_line q) (q_for_header_in_loop q) (q_clone_first_pattern q) (q_blocking_msg_line q) b (q_net_bare_type q)
+  | _ => Build_rquirks (q_macro_opaque q) (q_test_attr_substring q) (q_cfg_test_literal q) (q_attr_stop_at_comment q) (q_chain_start_line q) (q_for_header_in_loop q) (q_clone_first_pattern q) b (q_wrapper_method_form q) (q_net_bare_type q)
   end.
 Definition with_flag (i : nat) (q : rquirks) : rquirks := set_flag i false q.
-Definition flag_ids : list nat := [0;1;2;3;4;5;6;7].
+Definition flag_ids : list nat := [0;1;2;3;4;5;6;7;8;9].
 
 (* candidates: the claimed vector, the claimed vector with one flag switched off, the ideal *)
 Definition candidates (q : rquirks) : list rquirks := q :: map (fun i => with_flag i q) flag_ids ++ [ideal].
 
-Definition same (a b : list rep) : bool := ms_eqb rep_eqb a b.
+Definition same (a b : list rep) : bool :=
+  if List.length a =? List.length b then (if sub_ms rep_eqb a b then sub_ms rep_eqb b a else false) else false.
 
 Definition mkcfg (u c b : options) : config := {| c_unwrap := u; c_clone := c; c_blocking := b |}.
 
-(* full judgement of one run *)
-Definition judge_run (lazy : bool) (q : rquirks) (file : list node) (r : config * list rep) : list bool :=
-  let '(c, impl) := r in
-  let s := spec_report c file in
-  let ok := same impl s in
-  let ia := same impl (report q c file) in
-  file_domain file :: ok :: same (report ideal c file) s :: ia ::
-  (if lazy && ok && ia then []    (* nothing to attribute: the remaining bits are computed only on demand *)
-   else map (fun cand => same impl (report cand c file)) (map (fun i => with_flag i q) flag_ids ++ [ideal])
-        ++ map (fun i => same (report (set_flag i true ideal) c file) s) flag_ids).
+(* which linters' models read flag i (the others' reports are reused when only flag i changes) *)
+Definition reads_unwrap (i : nat) : bool := match i with 0 | 1 | 2 | 3 | 4 => true | _ => false end.
+Definition reads_clone (i : nat) : bool := match i with 0 | 1 | 2 | 3 | 4 | 5 | 6 => true | _ => false end.
+Definition reads_blocking (i : nat) : bool := match i with 0 | 1 | 2 | 3 | 7 | 8 | 9 => true | _ => false end.
 
-Definition judge (q : rquirks) (file : list node) (runs : list (config * list rep)) : list (list bool) :=
-  map (judge_run true q file) runs.
-Definition judge_full (q : rquirks) (file : list node) (runs : list (config * list rep)) : list (list bool) :=
-  map (judge_run false q file) runs.
+Definition reports3 (q : rquirks) (ls : srclines) (c : config) (file : list node) : list rep * list rep * list rep :=
+  (unwrap_report q ls c file, clone_report q ls c file, blocking_report q ls c file).
+Definition join3 (t : list rep * list rep * list rep) : list rep := match t with (u, cl, b) => u ++ cl ++ b end.
+(* report (set_flag i v base) given the three reports of base.  Used for the attribution bits of `judge` only (which
+   listed defect a failing run is attributed to); `judge_full` and every verdict bit evaluate the whole model. *)
+Definition flipped (base : rquirks) (t : list rep * list rep * list rep) (i : nat) (v : bool) (ls : srclines) (c : config) (file : list node) : list rep :=
+  match t with (u, cl, b) =>
+    let q' := set_flag i v base in
+    (if reads_unwrap i then unwrap_report q' ls c file else u) ++
+    (if reads_clone i then clone_report q' ls c file else cl) ++
+    (if reads_blocking i then blocking_report q' ls c file else b)
+  end.
+
+(* full judgement of one run *)
+Definition judge_run (lazy : bool) (q : rquirks) (ls : srclines) (file : list node) (r : config * list rep) : list bool :=
+  let '(c, impl) := r in
+  let s := spec_report ls c file in
+  let ok := same impl s in
+  let ta := reports3 q ls c file in
+  let ti := reports3 ideal ls c file in
+  let ia := same impl (join3 ta) in
+  file_domain file :: ok :: same (join3 ti) s :: ia ::
+  (if (if lazy then (if ok then ia else false) else false) then []    (* nothing to attribute: the remaining bits are computed only on demand *)
+   else if lazy then
+        map (fun i => same impl (flipped q ta i false ls c file)) flag_ids ++ [same impl (join3 ti)]
+        ++ map (fun i => same (flipped ideal ti i true ls c file) s) flag_ids
+   else map (fun i => same impl (report (set_flag i false q) ls c file)) flag_ids ++ [same impl (join3 ti)]
+        ++ map (fun i => same (report (set_flag i true ideal) ls c file) s) flag_ids).
+
+Definition judge (q : rquirks) (ls : srclines) (file : list node) (runs : list (config * list rep)) : list (list bool) :=
+  map (judge_run true q ls file) runs.
+Definition judge_full (q : rquirks) (ls : srclines) (file : list node) (runs : list (config * list rep)) : list (list bool) :=
+  map (judge_run false q ls file) runs.
+
